@@ -32,6 +32,11 @@
 (*      roll, whatever the directory looked like before it.                *)
 (*      A roll step = a write after which the current file is another file *)
 (*      than the current file before it.                                   *)
+(*  {"e":"fault","kind":"noroom"|"room"}  the log file system has no room  *)
+(*      from now on / has room again; {"e":"fault","kind":"blind"|         *)
+(*      "unblind"}  the dump directory holds an entry that cannot be       *)
+(*      stat()ed from now on / no longer.  Environment lines change no     *)
+(*      file; every bound keeps being evaluated unchanged under them.      *)
 (*  {"e":"fault","kind":"pin"|"unpin"}   the environment makes the rename  *)
 (*      of the current log file fail from now on / no longer               *)
 (*  {"e":"ev","kind":"start"|"push"|"tick"|"tickfail"|"stop"|"stopfail"|    *)
@@ -62,9 +67,9 @@ tvars == <<vars, l, conf, files>>
 NoConf == [maxCount |-> 0, limit |-> 0, cap |-> 0, maxDumps |-> 0]
 
 TInit == /\ l = 1 /\ conf = NoConf /\ files = <<>>
-         /\ arch = <<>> /\ cur = -1 /\ lw = 0 /\ rolled = FALSE /\ logLegal = TRUE /\ debt = 0 /\ rollFails = FALSE
+         /\ arch = <<>> /\ cur = -1 /\ lw = 0 /\ rolled = FALSE /\ logLegal = TRUE /\ debt = 0 /\ rollFails = FALSE /\ noRoom = FALSE
          /\ evFiles = 0 /\ evTmp = 0 /\ evQueue = 0 /\ evRun = TRUE /\ evLegal = TRUE
-         /\ dumps = <<>> /\ nextId = 0 /\ dLegal = TRUE /\ dWritten = FALSE
+         /\ dumps = <<>> /\ nextId = 0 /\ dLegal = TRUE /\ dWritten = FALSE /\ listFails = FALSE
 
 IsCur(f) == f.cur = 1
 ArchOf(fs) == LET a == SelectSeq(fs, LAMBDA f : ~IsCur(f)) IN [i \in DOMAIN a |-> a[i].size]
@@ -89,7 +94,7 @@ Reset ==
   /\ conf' = [maxCount |-> Rec[l].maxCount, limit |-> Rec[l].limit, cap |-> Rec[l].cap, maxDumps |-> Rec[l].maxDumps]
   /\ files' = Rec[l].files
   /\ Project(files')
-  /\ rolled' = FALSE /\ debt' = 0 /\ rollFails' = FALSE
+  /\ rolled' = FALSE /\ debt' = 0 /\ rollFails' = FALSE /\ noRoom' = FALSE /\ listFails' = FALSE
   /\ logLegal' = (Len(ArchOf(files')) + 1 <= Rec[l].maxCount)
   /\ evFiles' = Rec[l].ev /\ evTmp' = 0 /\ evQueue' = 0 /\ evRun' = TRUE /\ evLegal' = (Rec[l].ev <= Rec[l].cap)
   /\ dumps' = Rec[l].dumps /\ nextId' = 0 /\ dLegal' = (Len(Rec[l].dumps) <= Rec[l].maxDumps) /\ dWritten' = FALSE
@@ -103,7 +108,7 @@ Write ==
   /\ LET roll == CurId(files) # 0 /\ CurId(files') # 0 /\ CurId(files') # CurId(files)    \* a completed roll
      IN /\ rolled' = (rolled \/ roll)
         /\ debt' = IF roll THEN 0 ELSE debt
-  /\ UNCHANGED <<conf, logLegal, rollFails, evVars, dumpVars>>
+  /\ UNCHANGED <<conf, logLegal, rollFails, noRoom, evVars, dumpVars>>
   /\ l' = l + 1
 
 \* the run was killed inside a roll and restarted: the directory is found anew (no roll completed since); one more
@@ -114,14 +119,16 @@ Killed ==
   /\ Project(files')
   /\ rolled' = FALSE /\ debt' = debt + 1
   /\ evRun' = TRUE
-  /\ UNCHANGED <<conf, logLegal, rollFails, evFiles, evTmp, evQueue, evLegal, dumpVars>>
+  /\ UNCHANGED <<conf, logLegal, rollFails, noRoom, evFiles, evTmp, evQueue, evLegal, dumpVars>>
   /\ l' = l + 1
 
-\* the environment switches the rename fault on / off: no file changes
+\* the environment switches one of its faults on / off: no file changes
 Fault ==
   /\ l <= Len(Rec) /\ Rec[l].e = "fault"
-  /\ rollFails' = (Rec[l].kind = "pin")
-  /\ UNCHANGED <<conf, files, arch, cur, lw, rolled, logLegal, debt, evVars, dumpVars>>
+  /\ rollFails' = CASE Rec[l].kind = "pin" -> TRUE [] Rec[l].kind = "unpin" -> FALSE [] OTHER -> rollFails
+  /\ noRoom' = CASE Rec[l].kind = "noroom" -> TRUE [] Rec[l].kind = "room" -> FALSE [] OTHER -> noRoom
+  /\ listFails' = CASE Rec[l].kind = "blind" -> TRUE [] Rec[l].kind = "unblind" -> FALSE [] OTHER -> listFails
+  /\ UNCHANGED <<conf, files, arch, cur, lw, rolled, logLegal, debt, evVars, dumps, nextId, dLegal, dWritten>>
   /\ l' = l + 1
 
 Ev ==
@@ -135,8 +142,11 @@ Ev ==
 
 Dump ==
   /\ l <= Len(Rec) /\ Rec[l].e = "dump"
-  /\ dumps' = Rec[l].dumps /\ dWritten' = TRUE
-  /\ UNCHANGED <<conf, files, logVars, evVars, nextId, dLegal>>
+  /\ dumps' = Rec[l].dumps
+  \* a rule-set change while the directory cannot be listed need not clean up what an earlier, differently
+  \* configured run left (it must not add to it: T_DumpNoGrowthAtMax)
+  /\ dWritten' = (dWritten \/ ~listFails)
+  /\ UNCHANGED <<conf, files, logVars, evVars, nextId, dLegal, listFails>>
   /\ l' = l + 1
 
 \* the logger object is created again over what the earlier runs left; whatever that does to the directory is
@@ -145,7 +155,7 @@ TRestart ==
   /\ l <= Len(Rec) /\ Rec[l].e = "restart"
   /\ files' = Carry(Rec[l].files, 0)
   /\ Project(files')
-  /\ UNCHANGED <<conf, rolled, logLegal, debt, rollFails, evVars, dumpVars>>
+  /\ UNCHANGED <<conf, rolled, logLegal, debt, rollFails, noRoom, evVars, dumpVars>>
   /\ l' = l + 1
 
 TNext == Reset \/ Write \/ Killed \/ Fault \/ Ev \/ Dump \/ TRestart
@@ -165,6 +175,10 @@ T_DumpCount == (dLegal \/ dWritten) => P_DumpCount(dumps, conf.maxDumps)
 \* flush; not the reader's removals -- never add an entry at or above the cap.  evFiles here = all entries observed.
 T_EvDropAtCap == [][(l <= Len(Rec) /\ Rec[l].e = "ev" /\ Rec[l].kind # "remove")
                       => P_EvNoGrowthAtCap(evFiles, evFiles', conf.cap)]_tvars
+\* a rule-set change never takes the number of dumps above the configured number, nor above what it found: whatever
+\* the directory looks like and whatever cannot be listed in it
+T_DumpNoGrowthAtMax == [][(l <= Len(Rec) /\ Rec[l].e = "dump")
+                           => P_DumpNoGrowthAtMax(Len(dumps), Len(dumps'), conf.maxDumps)]_tvars
 T_DumpOldestFirst == [][(l <= Len(Rec) /\ Rec[l].e = "dump") => P_RemovedAreOldest(dumps, dumps')]_tvars
 
 Accepted == IF TLCGet("stats").diameter - 1 = Len(Rec) THEN TRUE
